@@ -153,7 +153,7 @@ def find_custom(msg: t.Any) -> t.Any:
 
 
 # ------------------------------------------------------------------------------------------------------------------
-def make_program(role: str, bysrc: t.Dict[str, t.List[t.Any]], length: int, rnd: random.Random) -> t.List[t.Dict[str, t.Any]]:
+def make_program(role: str, bysrc: t.Dict[str, t.List[t.Any]], length: int, rnd: random.Random, force_badsend: t.Optional[int] = None) -> t.List[t.Dict[str, t.Any]]:
     """A walk through the Session graph of `role`, decorated with registry operations and custom-type deliveries."""
     k = sess.skey({"st": "BEFORE_OPEN", "out": [], "srch": [], "ctr": 1})
     reg: t.Set[str] = set()
@@ -165,12 +165,22 @@ def make_program(role: str, bysrc: t.Dict[str, t.List[t.Any]], length: int, rnd:
             break
         u = rnd.random()
         src = es[0]["src"]
+        if force_badsend is not None and src["st"] == "OPENED" and not any(st["t"] == "badsend" for st in prog):
+            prog.append({"t": "badsend", "id": rnd.choice(src["out"]) if src["out"] else 1, "variant": force_badsend})
+            continue
+        if force_badsend is not None and src["st"] == "BEFORE_OPEN":
+            u = 0.9   # get the session opened first
         if u < 0.18:
             typ = rnd.choice(("control", "filter", "cred")) + rnd.choice(("", "", "2"))
             prog.append({"t": "register", "type": typ, "expect": "ValueError" if typ in reg else "ok"})
             reg.add(typ)
             continue
-        if 0.45 <= u < 0.50 and src["st"] == "OPENED":
+        if 0.52 <= u < 0.62:
+            # a message with library controls packed next to the session (a relay building the message it will forward): no
+            # effect on any session, but its octets show whatever a failed encoding elsewhere left in shared library state
+            prog.append({"t": "pagedpack"})
+            continue
+        if 0.45 <= u < 0.52 and src["st"] == "OPENED":
             # a send call whose argument cannot be encoded (D6: outside C10's quantifier, the session's protocol state is
             # OPENED before and after): whatever the failed encoding leaves behind must stay inside this session
             prog.append({"t": "badsend", "id": rnd.choice(src["out"]) if src["out"] else 1})
@@ -216,7 +226,27 @@ def _bad_control() -> t.Any:
     return sansldap.LDAPControl("1.2.\ud800", False, None)
 
 
+def library_probe() -> str:
+    """Octets of a fixed message with library controls, packed next to the sessions (state-neutral).  Part of every
+    transcript entry: whatever an earlier step of ANY session left in process-wide library state (a pooled writer, a shared
+    control instance, a module-level cache) shows here, at the very next step."""
+    import sansldap
+    import sansldap._messages as M
+
+    try:
+        return M.SearchResultDone(9, [sansldap.PagedResultControl(True, 7, b"ck"), sansldap.ShowDeletedControl(False), sansldap.LDAPControl("1.2.3", True, b"v")],
+                                  M.LDAPResult(M.LDAPResultCode(0), "", "", None)).pack(M.PackingOptions()).hex()
+    except Exception as ex:  # noqa: BLE001
+        return type(ex).__name__
+
+
 def run_step(s: t.Any, role: str, step: t.Dict[str, t.Any], seed: str) -> t.Tuple[t.Any, t.List[t.Tuple[str, str, str]]]:
+    entry, diffs = _run_step(s, role, step, seed)
+    # not right after a failing send of the same session: what it left behind must be seen by whoever comes next
+    return tuple(entry) + ("" if step["t"] == "badsend" else library_probe(),), diffs
+
+
+def _run_step(s: t.Any, role: str, step: t.Dict[str, t.Any], seed: str) -> t.Tuple[t.Any, t.List[t.Tuple[str, str, str]]]:
     """Execute one program step; returns (transcript entry, differences against the model)."""
     rnd = random.Random(seed)
     diffs: t.List[t.Tuple[str, str, str]] = []
@@ -231,13 +261,36 @@ def run_step(s: t.Any, role: str, step: t.Dict[str, t.Any], seed: str) -> t.Tupl
         if res != step["expect"]:
             diffs.append(("C19", f"register/{step['type']}/{step['expect']}->{res}", f"register_{step['type']}: expected {step['expect']}, got {res}"))
         return ("register", step["type"], res, s.state.name), diffs
+    if step["t"] == "pagedpack":
+        import sansldap
+        import sansldap._messages as M
+
+        try:
+            hexed = M.SearchResultDone(9, [sansldap.PagedResultControl(True, 7, b"ck"), sansldap.ShowDeletedControl(False)],
+                                       M.LDAPResult(M.LDAPResultCode(0), "", "", None)).pack(M.PackingOptions()).hex()
+        except Exception as ex:  # noqa: BLE001
+            hexed = type(ex).__name__
+        return ("pagedpack", hexed, s.state.name), diffs
     if step["t"] == "badsend":
         bad = "x\ud800"
+        import sansldap
+
+        v_ = step.get("variant", rnd.choice((0, 1, 2, 2)))
         try:
             if role == "client":
-                s.search_request(bad, attributes=["cn"]) if rnd.random() < 0.5 else s.extended_request("1.2.3", None, controls=[_bad_control()])
+                if v_ == 0:
+                    s.search_request(bad, attributes=["cn"])
+                elif v_ == 1:
+                    s.extended_request("1.2.3", None, controls=[_bad_control()])
+                else:   # a library control whose own value cannot be built
+                    s.extended_request("1.2.3", None, controls=[sansldap.PagedResultControl(False, 5, "not-bytes")])  # type: ignore[arg-type]
             else:
-                s.search_result_entry(step["id"], bad, []) if rnd.random() < 0.5 else s.search_result_done(step["id"], diagnostics_message=bad)
+                if v_ == 0:
+                    s.search_result_entry(step["id"], bad, [])
+                elif v_ == 1:
+                    s.search_result_done(step["id"], diagnostics_message=bad)
+                else:
+                    s.search_result_done(step["id"], controls=[sansldap.PagedResultControl(False, 5, "not-bytes")])  # type: ignore[arg-type]
             res = "ok"
         except Exception as ex:  # noqa: BLE001
             res = type(ex).__name__
@@ -456,9 +509,13 @@ def run(tier: str, seed: int) -> int:
         rep.add_part("spec->code: long single-session programs (registry semantics per step; each program re-run after all others)", programs=nlong, length=14)
         npairs = 14 if tier == "quick" else 120
         runs = 0
-        for n in range(npairs):
+        directed = [(ra_, v_) for ra_ in ("client", "server") for v_ in (0, 1, 2)]   # one program with a failing encode of each kind
+        for n in range(npairs + len(directed)):
             ra, rb = rnd.choice((("client", "server"), ("server", "server"), ("client", "client"), ("server", "client")))
-            pa = make_program(ra, graphs[ra], plen, rnd)
+            forced = None
+            if n >= npairs:
+                ra, forced = directed[n - npairs]
+            pa = make_program(ra, graphs[ra], plen, rnd, force_badsend=forced)
             pb = make_program(rb, graphs[rb], plen, rnd)
             ia, ib = f"{seed}-{n}-A", f"{seed}-{n}-B"
             ta, da = run_program(ra, pa, ia)
